@@ -232,7 +232,7 @@ def datetime_to_time(date, time):
         time[0], time[1], time[2],
         0, 0, -1,
         )
-    return _mktime(time_tuple)
+    return _mktime(time_tuple) + time[3] / 100.0
 
 #
 #   LocalScheduleObject
